@@ -171,6 +171,13 @@ impl UState {
     }
 
     pub fn apply(&mut self, op: &Op, pool: &[Member], edges: &mut BTreeMap<String, u64>) -> Vec<(String, String)> {
+        match catch(|| self.apply_inner(op, pool, edges)) {
+            Ok(v) => v,
+            Err(p) => vec![(format!("panic|{}", p.site_key()), format!("{:?} or a following accessor panicked: {} at {}:{}", op, p.message, p.file, p.line))],
+        }
+    }
+
+    fn apply_inner(&mut self, op: &Op, pool: &[Member], edges: &mut BTreeMap<String, u64>) -> Vec<(String, String)> {
         let mut out = vec![];
         let before_mode = self.u.to_sketch(HllType::Hll8).verif_state().mode;
         let before_lg = self.u.lg_config_k();
